@@ -29,13 +29,20 @@ Theorem C07_dir_exact : forall cfg c sc, dir_ladder cfg c sc = forbidden_dir_spe
 Proof. exact dir_ladder_spec. Qed.
 Print Assumptions C07_dir_exact.
 
-(* hence a whole scan reports exactly what the specification demands (every forbidden entry, with the
-   rule that triggers it, and nothing permitted), provided the placement site and the explain site
-   see the same scope answers (true for the canonical root spelling; D7 belongs to C08) *)
-Theorem C07_scan_exact : forall cfg es,
+(* hence a whole scan of a tree, in any processing order, reports exactly what the specification
+   demands: every forbidden entry, with the rule that triggers it, and nothing permitted.  Since
+   fixes/D07 the placement site and the explain site both match the normalised directory path, so the
+   model has ONE scope column per directory and no side condition is left *)
+Theorem C07_scan_exact : forall cfg rs t es,
+  Permutation (entries rs rs t) es -> scan_violations cfg es = spec_scan_violations cfg es.
+Proof. exact scan_exact_tree. Qed.
+Print Assumptions C07_scan_exact.
+
+(* the entry-list form, for arbitrary entry lists whose two parent-scope fields agree *)
+Theorem C07_scan_exact_entries : forall cfg es,
   (forall e, In e es -> e_pplc e = e_plim e) -> scan_violations cfg es = spec_scan_violations cfg es.
 Proof. exact scan_violations_spec. Qed.
-Print Assumptions C07_scan_exact.
+Print Assumptions C07_scan_exact_entries.
 
 (* extension / name / pattern lists combine by OR *)
 Theorem C07_lists_combine_by_or : forall cfg r name g rc,
@@ -117,7 +124,7 @@ Print Assumptions C07_rule_consulted_is_explains.
 Definition r_deny_bin : srule := mk_srule [42; 42]%N None None None false None None None None None [] 0 0 0 [[46; 98; 105; 110]%N] 0 0 0 false [].
 Definition r_allow_bin : srule := mk_srule [115]%N None None None false None None None None None [[46; 98; 105; 110]%N] 0 0 0 [] 0 0 0 false [].
 Definition cfg_d6 : config := mk_config None None None None None None None None [] 0 0 [] 0 0 0 [r_deny_bin; r_allow_bin].
-Definition cols_d6 : cols := mk_cols false false false false false false [] []
+Definition cols_d6 : cols := mk_cols false false false false false false []
   (mk_gcols false false None None None None None None) [rcols0; rcols0] [].
 
 Example C07_example_last_rule_consulted :
